@@ -316,7 +316,7 @@ def decide(v, traces, infos, label):
         v.extra["tv_states"] = v.extra.get("tv_states", 0) + res.distinct
         by_id = {t["id"]: t for t in pending}
         again, new_exc = [], set()
-        for tid, (matched, length, evname) in rej.items():
+        for tid, (matched, length, evname) in sorted(rej.items(), key=lambda kv: (len(by_id[kv[0]]["ev"]), kv[0])):  # shortest witness first
             t = by_id[tid]
             who, bad = culprits(t, matched) if matched < len(t["ev"]) else (None, [])
             if who is None or not bad:
@@ -353,6 +353,8 @@ def decide(v, traces, infos, label):
 
 def tv_checked(traces, **kw):
     """tlc.tv plus the demand that TLC really finished the batch without any error (an aborted run prints no REJ line at all)."""
+    # long histories make TLC recurse deeply (a marginal default thread stack overflowed under load): give the JVM threads room
+    kw["env"] = dict(kw.get("env") or {}, JAVA_TOOL_OPTIONS=(os.environ.get("JAVA_TOOL_OPTIONS", "") + " -Xss128m").strip())
     rej, res = tlc.tv("C17", "FreshTrace", traces, **kw)
     errs = [l for l in res.out.splitlines() if "Error" in l or "Exception" in l]
     if not res.no_error or errs or res.distinct < len(traces):
@@ -573,9 +575,9 @@ def run(tier):
     three = [h for h in base3 if n_constructs(h) == 3]
     pairs_full = [h for h in full2 if n_constructs(h) == 2]
     if quick:
-        for h in r.sample(rest2, 12):
+        for h in r.sample(rest2, 24):
             take(h, "restart-sample")
-        for h in r.sample(three, 40):
+        for h in r.sample(three, 80):
             take(h, "sample-of-3")
         for h in pairs_full:  # user-supplied variants: each next to itself and after its base sibling
             a, b = cons(h)
@@ -619,8 +621,6 @@ def run(tier):
         hid = f"r{i}" if (n_restarts(h) or w == "simulated") else f"f{i}"
         items.append((hid, h, ""))
         why[hid] = w
-    if os.environ.get("C17_DEBUG_LIMIT"):  # development aid: cap the number of histories
-        items = r.sample(items, min(len(items), int(os.environ["C17_DEBUG_LIMIT"])))
     nfork = sum(1 for hid, _h, _f in items if hid.startswith("f")) if FORK_OK[0] else 0
     say(f"[C17] executing {len(items)} histories: {sum(len(segments(h)) for _i, h, _f in items)} interpreters ({nfork} forked, the others exec'ed), "
         f"{sum(n_constructs(h) for _i, h, _f in items)} constructions")
